@@ -35,6 +35,8 @@ CURATED_TEXT = {
 'rename': "token A B C; start s; s: x*; x: A @xa | B C @xb | C;",
 'rename_to_rule': "token A B C D; start s; s: x D [y]; x: A @y | B; y: C;",
 'create_named_rule': "token A B C D; start s; s: <1 A B 1>y D [y]; y: C;",
+'rename_back': "token A B C; start s; s: r+; r: A @x [B @r] C;",
+'rename_back_alt': "token A B C D; start s; s: r D; r: A @x (B @r | C) ;",
 'rename_loop': "token A B C; start s; s: x C; x: A (B @many)* ;",
 'elide_cond': "token A B C; start s; s: x x; x: A ^ | B C;",
 'elide_rule': "token A B C Ws; skip Ws; start s; s: x* C; x^: A | B y; y: A A;",
@@ -70,6 +72,9 @@ CURATED_TEXT = {
 'pred_nullable_follow': "token A B C; start s; s: x C; x: ?1 [A] | B;",
 # ---- ordered choice
 'choice_simple': "token A B C D; start s; s: (A B / A C) D;",
+'choice_commit_in_alt': "token A B C D E; start s; s: A (B ~ | C) D / A C E;",
+'choice_commit_in_opt': "token A B C D E; start s; s: A [B ~] D / A B E;",
+'choice_commit_in_rule': "token A B C D E; start s; s: x D / A C E; x: A (B ~ | C);",
 'choice_commit': "token A B C D; start s; s: (A ~ B / A C) D;",
 'choice_rules': "token A B C D Ws; skip Ws; start s; s: (x / y) D; x: A B; y: A C;",
 'choice_shared': "token A B C; start s; s: (t B / t C) t; t: A;",
@@ -130,6 +135,26 @@ NEAR_MISS_TEXT = {
 'nm_choice_create_outer': "token A B C D; start s; s: <1 A (B 1>x C / B D);",
 'nm_choice_create_whole': "token A B C D; start s; s: r D; r^: A (B > C / B D);",
 'nm_create_whole_then_marker': "token A B C D; start s; s: r D; r^: p <1 B > C 1>x; p: A A;",
+'nm_action_after_partial_commit': "token A B C D E; start s; s: A (B ~ | C) #1 D / A C E;",
+'nm_action_after_opt_commit': "token A B C D E; start s; s: A [B ~] #1 D / A B E;",
+'nm_leftrec_ptrue_indirect': "token A B C D; start s; s: x; x: ?t y C | A B; y: x D;",
+'nm_leftrec_ptrue_opt': "token A B C; start s; s: x C; x: [?t x A] B;",
+'nm_leftrec_ptrue_star': "token A B C; start s; s: x C; x: (?t x A)* B;",
+'nm_leftrec_pred_star': "token A B C; start s; s: x C; x: (?1 y A)* B; y: x;",
+'nm_crossing_inner_marker_opt': "token A B C D E; start s; s: <1 A <2 B [C 1>x <3 D 3>z] E 2>y;",
+'nm_crossing_inner_marker_star': "token A B C D E; start s; s: <1 A <2 B (C 1>x <3 D 3>z)* E 2>y;",
+'nm_crossing_inner_marker_alt': "token A B C D E; start s; s: <1 A <2 B (C 1>x <3 D 3>z | D) E 2>y;",
+'nm_crossing_inner_marker_paren': "token A B C D E; start s; s: <1 A <2 B (<3 C 1>x D 3>z) E 2>y;",
+'nm_crossing_inner_two_markers': "token A B C D E; start s; s: <1 A <2 B [<3 C <4 D 1>x 4>w 3>z] E 2>y;",
+'nm_ll1_in_pratt_op_opt': "token N P A; start s; s: e; e: e P [A] A | N;",
+'nm_ll1_in_pratt_op_star': "token N P A; start s; s: e; e: e P A* A | N;",
+'nm_ll1_in_pratt_op_alt': "token N P A B; start s; s: e; e: e P (A | A B) | N;",
+'nm_ll1_in_pratt_atom_opt': "token N P A; start s; s: e; e: e P e | [A] A N;",
+'nm_ll1_in_pratt_postfix': "token N P A; start s; s: e; e: e P [A] | e A | N;",
+'nm_ll1_in_choice_alt': "token A B C; start s; s: (A [B] B / A C);",
+'nm_ll1_in_loop_body': "token A B C; start s; s: (A [B] B)* C;",
+'nm_ll1_in_opt_body': "token A B C; start s; s: [A B* B] C;",
+'nm_ll1_in_part': "token A B C; start s; part p; s: p C; p: A [B] B;",
 'nm_rec_noconsume': "token A B; start s; s: x B; x: [A] x | B;",
 'nm_indirect_leftrec': "token A B; start s; s: x; x: y A | B; y: x B | A;",
 'nm_mixed_assoc': "token N P H; right H; start s; s: e; e: e (P | H) e | N;",
@@ -253,6 +278,7 @@ PRODUCT_FEATURES = {
     'altnull': ('(B | [C])', ''), 'rename': ('B @rn', ''), 'renameopt': ('[B @rn]', ''), 'create': ('<1 B 1>mk', ''),
     'createopt': ('<1 B [C 1>mk]', ''), 'createloop': ('<1 B (C 1>mk)*', ''), 'whole': ('[B >]', ''), 'action': ('#1 B #2', ''),
     'assert': ('!1 B', ''), 'ret': ('& B', ''), 'predopt': ('[?1 B]', ''), 'predstar': ('(?1 B)*', ''), 'ptrue': ('[?t B]', ''),
+    'renameback': ('B @rn [C @x]', ''), 'commitalt': ('(B ~ | C)', ''), 'commit': ('B ~ C', ''), 'createouter': ('<1 B [C 1>mk] [B 1>mk2]', ''),
     'call': ('y', 'y: B [C];'), 'callelided': ('z', 'z^: B | C;'), 'callnullable': ('w', 'w: [B] C*;'),
 }
 def product_family():
